@@ -304,4 +304,42 @@ Proof.
   pose proof Hv as Hv'. dv Hv'.
   destruct (row_split g ci a b HkH HkW Ha Hb) as (E1 & E2 & E3). cbv zeta in E1, E2, E3. rewrite E1, E2, E3. reflexivity.
 Qed.
+
+(* C14, gradients: back-propagating through the composition  unfold -> matrix product  gives the gradients of the fused kernel.
+   dU = w.reshape(C_out,-1).T @ g  is the gradient reaching unfold's output; unfold's backward (col2im_fast) maps it to x. *)
+Definition dU_of g Co (gr w : pos -> A) : idx3 -> A :=
+  fun j => let '(n, r, l) := j in isum (zr Co) (fun co => smul (w_flat g w co r) (gr (n, co, l / lW g, l mod lW g))).
+Definition dWflat_of g (gr x : pos -> A) (co r : Z) : A :=
+  isum (zr (gN g)) (fun n => isum (zr (nL g)) (fun l => smul (gr (n, co, l / lW g, l mod lW g)) (unfold_fwd g s0 x (n, r, l)))).
+
+Lemma place2_ext g (y y' : win6 -> A) i : valid g -> (forall t, In t (Jwin g) -> y t = y' t) -> place2 g y i = place2 g y' i.
+Proof.
+  intros Hv E. rewrite !place2_scatter by auto. unfold scatter. apply isum_ext. intros t Ht.
+  rewrite (E t Ht). reflexivity.
+Qed.
+
+Theorem conv_unfold_grad_x g Co (gr w : pos -> A) i : valid g ->
+  unfold_bwd g (dU_of g Co gr w) i = conv2d_bwd_x g Co gr w i.
+Proof.
+  intros Hv. unfold unfold_bwd, fold_fwd, conv2d_bwd_x.
+  rewrite (col2im_unf_scatter VFast g _ i Hv), <- (place_windows_scatter g _ i Hv).
+  change (col2im_apply (pw_contribs g) ?y i) with (place2 g y i).
+  apply place2_ext; auto. intros [[[[[wi wj] n] c] a] b] Hin. apply in_Jwin in Hin as (Hwi & Hwj & Hn & Hc & Ha & Hb).
+  unfold jwin, dU_of, move_0_2_of6, conv2d_agw. apply isum_ext; intros co _.
+  pose proof Hv as Hv'. dv Hv'.
+  destruct (row_split g c a b HkH HkW Ha Hb) as (E1 & E2 & E3). cbv zeta in E1, E2, E3.
+  unfold w_flat. rewrite E1, E2, E3.
+  destruct (divmod_unique (wi * lW g + wj) (lW g) wi wj Hwj eq_refl) as [-> ->]. apply smul_comm.
+Qed.
+
+Theorem conv_unfold_grad_w g (gr x : pos -> A) co c a b : valid g -> 0 <= c < gC g -> 0 <= a < kH g -> 0 <= b < kW g ->
+  dWflat_of g gr x co ((c * kH g + a) * kW g + b) = conv2d_bwd_w g gr (windows2 g s0 x) (co, c, a, b).
+Proof.
+  intros Hv Hc Ha Hb. unfold dWflat_of, conv2d_bwd_w, O2, idx3. rewrite !isum_list_prod, oH_eq, oW_eq by auto.
+  symmetry. swap1. swap0. symmetry.
+  apply isum_ext; intros n Hn. apply in_zr in Hn. rewrite isum_zr_L by auto.
+  apply isum_ext; intros wi Hwi. apply isum_ext; intros wj Hwj. apply in_zr in Hwi. apply in_zr in Hwj.
+  destruct (divmod_unique (wi * lW g + wj) (lW g) wi wj Hwj eq_refl) as [-> ->].
+  rewrite unfold_layout, windows2_xpad by auto. reflexivity.
+Qed.
 End ConvUnfold.
